@@ -1097,8 +1097,21 @@ func (s *BgpServer) getBestFromLocalCallbackLocked(peer *peer, rfList []bgp.Fami
 	}
 
 	for _, family := range peer.toGlobalFamilies(rfList) {
+		addPath := peer.isAddPathSendEnabled(family)
+		sendMax := peer.getAddPathSendMax(family)
+		// paths of a destination come best first: with ADD-PATH advertise what was
+		// already advertised plus new ones up to send-max, as incremental updates do.
+		added := make(map[string]uint8)
 		for _, path := range s.getPossibleBest(peer, family) {
 			if p := s.filterpath(peer, path, nil); p != nil {
+				if addPath && !peer.hasPathAlreadyBeenSent(p) {
+					prefix := p.GetPrefix()
+					if peer.getRoutesCount(family, prefix)+added[prefix] >= sendMax {
+						peer.setPathSendMaxFiltered(p)
+						continue
+					}
+					added[prefix]++
+				}
 				pathList = append(pathList, p)
 			} else {
 				filtered = append(filtered, filteredPathForPeer(peer, path))
